@@ -114,6 +114,10 @@ func main() {
 			Case      replayCase `json:"case"`
 		}
 		data, err := os.ReadFile(r.Replay)
+		if err == nil && json.Unmarshal(data, &f) == nil && strings.HasPrefix(f.Signature, "platform-repeat/") {
+			// a finding of the platform repeat-run part: replayed by its own (plain) binary
+			os.Exit(harness.RunPartBinary("repeat", "-replay", r.Replay))
+		}
 		if err == nil && json.Unmarshal(data, &f) == nil && len(f.Case.ChoicesB) > 0 {
 			replayPair(r, scs, f.Signature, f.Case)
 		}
@@ -171,8 +175,12 @@ func main() {
 		"memory model: sequential consistency at shim operations; unsynchronised accesses are covered only by the -race pass of C12",
 		"executions that end in one of C12's deadlocks (lost wake-up) produce no outcome and are counted, not judged, here",
 		"parallel-engine clause NOT decided: akita's ParallelEngine runs same-time handlers on free goroutines; its interleaving space is outside bounded exhaustive exploration",
-		"host core counts / processes: the controlled scheduler owns every interleaving of the modelled goroutines, so GOMAXPROCS is immaterial inside the model; not separately sampled here",
+		"host core counts / processes: the controlled scheduler owns every interleaving of the modelled goroutines, so GOMAXPROCS is immaterial inside the model; outside the model they are sampled by the supplementary platform repeat-run part (coverage.part_repeat)",
 	}
+	// SUPPLEMENTARY: the real emulation and timing platforms, every case in 3 separate processes with
+	// GOMAXPROCS 1/3/16, all observables compared across the runs (platlat.RunC05Repeat; plain build,
+	// auxiliary binary <this>-repeat). Its coverage lands under coverage["part_repeat"].
+	r.RunPart("repeat")
 	r.Finish()
 }
 
